@@ -89,6 +89,21 @@ def main():
         ck.fail("C17-nearest", "get_nearest_price(%s/%s) = %s cents is not the closest tick" % (n, d, e),
                 {"call": "flumine.utils.get_nearest_price", "arg_rational": [n, d], "returned_cents": e})
 
+    # ---- family 2b: both ladders interleaved in one process (classic, Betdaq, classic again) on the 0.01 grid + random 0.001 points
+    mpts = sorted(set(list(range(900, 110100, 10)) + [rng.randrange(0, 1100000) for _ in range(20000 if thorough else 4000)]))
+    mo = run_impl_parallel("c17", [{"job": "nearest_mixed", "points": ch} for ch in chunked(mpts, 20000)])
+    mcases = [c for o in mo for c in o["out"]]
+    chunks = ["Definition cases : list (Z*Z*Z*Z*Z) := %s.\nEval vm_compute in firstn 20 (bad_idx mixed_ok cases).\n" % cl(
+        "(%s, %s, %s, %s, %s)" % tuple(z(x) for x in c) for c in ch) for ch in chunked(mcases, 5000)]
+    badm = []
+    for i, o in enumerate(coq_eval("c17mix", HDR, chunks)):
+        badm += [i * 5000 + k for k in parse_nlist(parse_evals(o)[0])]
+    ck.family("nearest_both_ladders_interleaved", len(mcases), len({(c[1], c[2]) for c in mcases}), badm, badm,
+              dist={"points": len(mcases)}, samples=[{"family": "nearest_mixed", "k/1000,classic,betdaq,classic,betdaq": mcases[len(mcases) // 3]}])
+    for k in badm[:5]:
+        ck.fail("C17-nearest", "get_nearest_price(%s) on the classic / Betdaq ladder (called alternately in one process) is not the closest tick of the ladder asked for: %s" % (mcases[k][0] / 1000, mcases[k][1:]),
+                {"call": "get_nearest_price(x), get_nearest_price(x, BETDAQ_CUTOFFS) alternately", "x": mcases[k][0] / 1000, "returned_cents": mcases[k][1:]})
+
     # ---- family 3: price_ticks_away, every tick x every n in [-400, 400] (+ non-ticks -> ValueError)
     nlo, nhi = -400, 400
     fams = [("classic", ticks + [100, 201, 1001, 100001, 0], "MIN_PRICE MAX_PRICE PRICES")]
